@@ -80,6 +80,11 @@ CHECKS = {
    text="Generated-input search: 720 templates (10 wrappers -- map_err, map_err_with_state, recover_with x4 strategies, labelled, memoized, stacked -- x 18 ways of failing incl. try_map / custom / Ext rejections, memoized failures, short collect_exactly / into_iter, not, unwrapped x 4 surroundings) x every string over {a,b,c} up to length 4 (quick) / 6 (thorough) plus delimiter and multi-byte strings; 250k / 4M random grammars over every node family with a wrapper at the root, on &str (derived, truncated, random Unicode incl. combining marks, 4-byte and boundary code points) and &[u8] (arbitrary bytes); each with Rich, Simple, Cheap and EmptyErr, parse and check; 40k / 600k random strings through every text::* parser, regex and the Graphemes input. No panic, no crash, contract and spans valid, tokens consumed <= 64 x (reference evaluations + length + 16). Exploration within these bounds.",
    note="Trusted: the reference's evaluation count as the yardstick of the work bound. Hangs that consume no tokens would only hit the wall-clock watchdog (inconclusive). F8 (zero-sized errors not recorded by add_alt_err), F3 and F9 (failing memoized / collect_exactly leave no pending error) were found here / in C11 / C06 and fixed in /repo. The ASan build of a libFuzzer target is a thorough-tier extra (see DESIGN.md).",
    design="DESIGN.md section 4, C20"),
+ "C09": dict(
+   technique="property-based differential testing of atom.pratt(ops) against an independently written textbook binding-power evaluator over generated operator tables (bounded-exhaustive: every token string up to a length bound per table; plus proptest-driven random tables and long strings), with oracle-free invariants (flattened tree == consumed tokens in order; Vec / tuple-of-boxed / plain-tuple tables and check mode agree; fold-callback spans and states)",
+   text="Generated-input search: 8 statically typed plain-operator tuples x every string up to length 6 (quick) / 7 (thorough) over their alphabets; 300 / 3000 generated tables (1..6 operators over + - * ! ^ ~, powers 0..3, 70% plain / 30% unrestricted incl. duplicates and mixed associativity, a third with parenthesised atoms via recursive) x EVERY string over (atoms, used symbols, a foreign symbol, parentheses) up to length 5..6 / 6..8 (about 10^4..10^5 strings per table); 300k / 4M random (table, string) pairs with derived expressions (+edits) and random strings up to length 40. Tree, acceptance and consumed length must equal the textbook algorithm's; all representations and check mode must agree; every fold callback must see the span and state of exactly its sub-expression. Exploration within these bounds (the string enumeration is complete per table, the set of tables is sampled).",
+   note="Trusted: the reference evaluator in harness/src/props/c09.rs (written from the statement; validated in the design pilot on 600k unrestricted cases). 'exhaustive' in the evidence refers to the per-table string enumeration.",
+   design="DESIGN.md section 4, C09"),
 }
 
 NOT_YET = {}
